@@ -601,6 +601,23 @@ pub fn run_with<C: VCtx>(ctx: &C, zkp: &Zkp<C>, op: &str, a: &[Value]) -> Value 
             let used = rng::clear();
             res(r, |(f, proof)| json!([C::e_out(&f), cp_out(&proof), xs_out::<C>(&draws), used]))
         }
+        // ONE Keymaker value releasing factors for a sequence of ciphertexts (some repeated), under one RNG script:
+        // [sk, [c...], label, script] -> [[factor, proof], ...]
+        "km_factor_seq" => {
+            let k = km::VKeymaker::from_sk(PrivateKey::from(&C::x_in(&a[0]), ctx), ctx);
+            let cs = cs_in::<C>(&a[1]);
+            let label = hex_in(&a[2]);
+            rng::install(hex_in(&a[3]));
+            let outv: Vec<Value> = cs
+                .iter()
+                .map(|c| match k.decryption_factor(c, &label) {
+                    Ok((f, proof)) => json!([C::e_out(&f), cp_out(&proof)]),
+                    Err(_) => json!("err"),
+                })
+                .collect();
+            rng::clear();
+            Value::Array(outv)
+        }
         "km_decryption_factor_many" => {
             let script = hex_in(&a[3]);
             let cs = cs_in::<C>(&a[1]);
